@@ -8,9 +8,9 @@
 From Coq Require Import ZArith List Bool Permutation.
 From Batchie Require Import Lib.Sexp Model.Encode Model.Screen Model.Retro Model.Pairwise Model.RetroInit
   Proofs.C11Lib Proofs.C11Select Proofs.C11Holdout Proofs.C13Filter Proofs.C13Optimal Proofs.C13Size
-  Proofs.C13NPlate Proofs.C13SampleSeg Proofs.C13Shapes Proofs.C13MergeLib Proofs.C13TopBottom
+  Proofs.C13NPlate Proofs.C13SampleSeg Proofs.C13SampleSegEven Proofs.C13Shapes Proofs.C13MergeLib Proofs.C13TopBottom
   Proofs.C13MergeMin Proofs.C13MergeShapes Proofs.C11Init Proofs.C13Sparse Proofs.C13Pairwise
-  Proofs.C13SparseTerm.
+  Proofs.C13SparseTerm Proofs.C13PairwiseSingles.
 Import ListNotations.
 
 (* ---- sample-segregating generator ---- *)
@@ -23,6 +23,18 @@ Theorem C13_sample_segregating_shape : forall mx rows ds out ds',
      (Z.of_nat (length (filter (in_plate p) (unobserved out))) <= mx)%Z).
 Proof. exact sample_segregating_shape. Qed.
 Print Assumptions C13_sample_segregating_shape.
+
+(* "split across multiple equal sized plates": the generated plates of one sample are the chunks of
+   np.array_split, so any two unobserved output plates holding experiments of the same sample differ in size by at
+   most one (r1, r2 range over all unobserved output rows of one sample; the sizes are those of their plates) *)
+Theorem C13_sample_segregating_even : forall mx rows ds out ds',
+  generate_plates (GSampleSeg true mx) rows ds = Ok (out, ds') ->
+  ss_contract mx (unobserved rows) (sample_names (unobserved rows)) ds ->
+  forall r1 r2, In r1 (unobserved out) -> In r2 (unobserved out) -> r_sample r1 = r_sample r2 ->
+    length (filter (in_plate (r_plate r1)) (unobserved out))
+    <= length (filter (in_plate (r_plate r2)) (unobserved out)) + 1.
+Proof. exact sample_segregating_even. Qed.
+Print Assumptions C13_sample_segregating_even.
 
 Definition w_row (s : Z) (p : name) (o : Z) : row :=
   {| r_sample := [s]; r_plate := p; r_treats := [([97], 1); ([98], 2)]%Z; r_obs := o; r_mask := false |}.
@@ -54,6 +66,18 @@ Theorem C13_pairwise_single_sample : forall ctrl subset anchor rows ds out ds',
   generate_plates (GPairwise ctrl subset anchor) rows ds = Ok (out, ds') -> one_sample (unobserved out).
 Proof. exact pairwise_single_sample_w. Qed.
 Print Assumptions C13_pairwise_single_sample.
+
+(* [C13_pairwise_single_sample] is about the whole output (combination rows and single-agent rows alike).  Where the
+   single-agent rows go, explicitly: every unobserved output row r - single-agent or not - sits on a plate
+   generated_plate_k that holds a combination row c (no control entry) of r's own sample; so a single-agent
+   experiment never opens a plate of its own and never lands on a plate of another sample *)
+Theorem C13_pairwise_singles_join_combo_plates : forall ctrl subset anchor rows ds out ds',
+  generate_plates (GPairwise ctrl subset anchor) rows ds = Ok (out, ds') ->
+  forall r, In r (unobserved out) ->
+    exists c k, In c (unobserved out) /\ is_combo ctrl c = true /\
+                r_plate c = r_plate r /\ r_sample c = r_sample r /\ r_plate r = gen_name k.
+Proof. exact pairwise_joins_combo_w. Qed.
+Print Assumptions C13_pairwise_singles_join_combo_plates.
 
 (* ---- sparse-cover initial plate ---- *)
 (* every sample and every treatment id (None = control) of the screen occurs in an observed row; observed
@@ -287,3 +311,25 @@ Proof. vm_compute. reflexivity. Qed.
 Example C13_ss_contract_example :
   ss_contract 2 w_ss (sample_names w_ss) [DInts [4; 2; 3]].
 Proof. vm_compute. split; [|exact I]. apply (Permutation_cons_app [2; 3] [] 4). apply Permutation_refl. Qed.
+(* ... and the split itself: max 2, sample A (2 rows) keeps one plate, sample B (3 rows) is split 2 + 1 *)
+Example C13_sample_segregating_even_example :
+  option_map (fun r => map r_plate (fst r))
+    (match generate_plates (GSampleSeg true 2) w_ss [DInts [4; 2; 3]] with Ok r => Some r | Err _ => None end)
+  = Some [gen_name 0; gen_name 0; gen_name 1; gen_name 2; gen_name 1].
+Proof. vm_compute. reflexivity. Qed.
+(* pairwise with single-agent rows: samples A, B, each with one combination a+b and one single a; subset 1, no anchors;
+   permutation answer [1; 0], empty control choice, singles assigned to the plate of their sample *)
+Definition w_pw_row (s : Z) (single : bool) (o : Z) : row :=
+  {| r_sample := [s]; r_plate := [112]%Z;
+     r_treats := if single then [([97], 1); ([], 0)]%Z else [([97], 1); ([98], 1)]%Z; r_obs := o; r_mask := false |}.
+Definition w_pw : list row := [w_pw_row 65 false 1; w_pw_row 65 true 2; w_pw_row 66 false 3; w_pw_row 66 true 4]%Z.
+Example C13_pairwise_singles_example :
+  option_map (fun r => (map r_sample (fst r), map r_plate (fst r), map (is_combo []) (fst r)))
+    (match generate_plates (GPairwise [] 1 0) w_pw
+             [DInts [1; 0]; DInts []; DNames [gen_name 0]; DNames [gen_name 1]] with Ok r => Some r | Err _ => None end)
+  = Some ([[65]; [66]; [65]; [66]]%Z, [gen_name 0; gen_name 1; gen_name 0; gen_name 1], [true; true; false; false]).
+Proof. vm_compute. reflexivity. Qed.
+(* an assignment answer outside the plates of the sample (numpy's choice cannot give one) is refused *)
+Example C13_pairwise_singles_bad_oracle :
+  generate_plates (GPairwise [] 1 0) w_pw [DInts [1; 0]; DInts []; DNames [gen_name 1]; DNames [gen_name 1]] = Err 94%Z.
+Proof. vm_compute. reflexivity. Qed.
